@@ -116,11 +116,11 @@ theorem remove_annotation_ok (ops : List StoreOp) (r : Ref) (h : Nat)
   rmAnn_ok _ r h (wf_run ops).inv (wf_run ops).lt hres hl
 
 theorem remove_resource_ok (ops : List StoreOp) (id : String) (rh : Nat)
-    (hres : (run ops).resolveRes id = some rh) : ((run ops).rmRes id).1 = .ok "-" :=
+    (hres : (run ops).lookupRes id = some rh) : ((run ops).rmRes id).1 = .ok "-" :=
   rmRes_ok _ id rh (wf_run ops).inv (wf_run ops).lt hres
 
 theorem remove_dataset_ok (ops : List StoreOp) (id : String) (sh : Nat)
-    (hres : (run ops).resolveSet id = some sh) : ((run ops).rmSet id).1 = .ok "-" :=
+    (hres : (run ops).lookupSet id = some sh) : ((run ops).rmSet id).1 = .ok "-" :=
   rmSet_ok _ id sh (wf_run ops).inv (wf_run ops).lt hres
 
 /-! ### the cascade removes exactly the dependants -/
